@@ -981,7 +981,7 @@ func checkHashable(k Value) {
 
 func (e *Exec) mapSet(m *Map, k, v Value) {
 	checkHashable(k)
-	if isBStr(k) || m.hasSymKeys() {
+	if isSymKey(k) || m.hasSymKeys() {
 		if m.hasConds() {
 			panic(abort("update of a map with symbolic keys and conditional entries"))
 		}
@@ -1343,7 +1343,7 @@ func (e *Exec) lookup(ins *ssa.Lookup, x, idx Value) Value {
 			panic(staleRead{st.Where})
 		}
 		checkHashable(idx)
-		if isBStr(idx) || x.hasSymKeys() {
+		if isSymKey(idx) || x.hasSymKeys() {
 			okT := x.symFind(idx)
 			v := zero(vt)
 			if ins.CommaOk {
